@@ -133,6 +133,52 @@ def _commute(kind, iters):
     return fn
 
 
+def _commute_real(dim, iters, shared):
+    """the same with the REAL EdgeOdometry / EdgeLandmark classes on an R^n graph (pose, pose, landmark; landmark edges with
+    sensor offsets) and a translation T: the two linear systems are compared up to polynomial normal form.  ``shared``:
+    the original graph's vertices all start at one point and are views of ONE array (the translate is freshly allocated)"""
+
+    def fn(P, g):
+        import numpy
+
+        from .graphkit import functional_solver, install_stubs
+
+        np = P.np
+        kind = "R%d" % dim
+        cls = g.PoseR2 if dim == 2 else g.PoseR3
+        env = install_stubs(P, g, solver=functional_solver(P, normalise=True) if P.symbolic else None)
+        if shared:
+            start = P.vector("start", dim)
+            poses = [cls(start) for _ in range(3)]
+        else:
+            poses = [mk_pose(P, g, kind, "x%d" % i) for i in range(3)]
+        T = mk_pose(P, g, kind, "T")
+        oms = [P.sym_matrix("om%d" % k, dim, psd=True) for k in range(3)]
+        zs = [mk_pose(P, g, kind, "z%d" % k) for k in range(3)]
+        offs = [mk_pose(P, g, kind, "off%d" % k) for k in range(3)]
+
+        def build(ps):
+            verts = [g.Vertex(i, p, fixed=(i == 0)) for i, p in enumerate(ps)]
+            es = [g.EdgeOdometry([0, 1], oms[0], zs[0]), g.EdgeLandmark([0, 2], oms[1], zs[1], offs[1], offset_id=1), g.EdgeLandmark([1, 2], oms[2], zs[2], offs[2], offset_id=2)]
+            return g.Graph(es, verts), verts
+
+        G1, verts1 = build(poses)
+        G2, verts2 = build([T + p for p in poses])
+        import warnings
+
+        with warnings.catch_warnings():
+            warnings.simplefilter("ignore")
+            r1 = G1.optimize(tol=0.0, max_iter=iters, fix_first_pose=False, verbose=False)
+            r2 = G2.optimize(tol=0.0, max_iter=iters, fix_first_pose=False, verbose=False)
+        P.check("same_iterations", r1.num_iterations == r2.num_iterations)
+        for i, (a, b) in enumerate(zip(verts1, verts2)):
+            P.check_eq("commutes_%d" % i, b.pose.to_array(), (T + a.pose).to_array(), tol=1e-6)
+        P.check_eq("same_initial_chi2", r2.initial_chi2, r1.initial_chi2, tol=1e-6)
+        P.check_eq("same_final_chi2", r2.final_chi2, r1.final_chi2, tol=1e-6)
+
+    return fn
+
+
 def cases(tier):
     v = 2 if tier == "quick" else 6
     out = []
@@ -145,4 +191,6 @@ def cases(tier):
     for kind in ("R2", "R3", "SE2", "SE3"):
         for iters in (1, 2) if kind in ("R2", "R3") else (1,):
             out.append(Case("commute-%s-it%d" % (kind, iters), _commute(kind, iters), timeout=15, old_timeout=30, validate=v if kind != "SE3" else 1, val_tol=1e-4, feas_timeout_ms=1500, shards=2 if kind == "SE3" else 1))
+    for dim, iters, shared in [(2, 1, False), (2, 2, False), (3, 1, False), (2, 2, True), (3, 1, True)]:
+        out.append(Case("commute-real-R%d-it%d%s" % (dim, iters, "-shared" if shared else ""), _commute_real(dim, iters, shared), timeout=15, old_timeout=30, validate=v, val_tol=1e-4, feas_timeout_ms=1500))
     return out
